@@ -107,7 +107,10 @@ def run_shard(ctx):
         q = gq.random_query(rng, core, with_conditions=True, allow_empty_x=True)
         if q is None or not q["Z"]:
             continue
-        gd, pad = gg.embed_wide(core, rng, rng.randint(10, 14))
+        if wide["cases"] % 8 == 7:
+            gd, pad = gg.embed_wide(core, rng, rng.choice([64, 65, 100]), p_di=0.02, p_bi=0.01)
+        else:
+            gd, pad = gg.embed_wide(core, rng, rng.randint(10, 14))
         wide["cases"] += 1
         run_case(ctx, gd, q, via=rng.choice(("outcomes", "identify", "from_parts", "from_expression")),
                  cards={w: 1 for w in pad})
